@@ -486,11 +486,18 @@ fn cpi(instruction: &Instruction, infos: &[AccountInfo], signers_seeds: &[&[&[u8
             c.events.push((caller, instruction.data[8..].to_vec()));
         }
     });
-    // The callee program account must be available to the caller.
-    if !is_builtin(&instruction.program_id) && !infos.iter().any(|i| *i.key == instruction.program_id) {
-        // The real runtime fails with MissingAccount here.
+    // The callee program account must be among the *caller's instruction accounts* (the real runtime
+    // looks it up in the caller's instruction context; it need not be in `account_infos`).
+    let known = with_ctx(|c| {
+        c.baselines
+            .get(depth.saturating_sub(1))
+            .map(|b| b.iter().any(|a| a.key == instruction.program_id))
+            .unwrap_or(false)
+    })
+    .unwrap_or(false);
+    if !is_builtin(&instruction.program_id) && !known {
         return Err(fail(TxError::Runtime(format!(
-            "MissingAccount: program {} not passed to CPI",
+            "MissingAccount: unknown program {} (not an account of the calling instruction)",
             instruction.program_id
         ))));
     }
@@ -834,6 +841,19 @@ impl Svm {
             baselines: vec![],
         };
         let prev = CTX.with(|c| c.borrow_mut().replace(ctx));
+        // Account privileges are transaction-wide (message level): an account is writable / signer in
+        // every instruction if any instruction (or the fee payer role: first signer) makes it so.
+        let mut tx_writable: BTreeSet<Pubkey> = BTreeSet::new();
+        if let Some(payer) = signers.first() {
+            tx_writable.insert(*payer);
+        }
+        for ix in ixs {
+            for m in &ix.accounts {
+                if m.is_writable {
+                    tx_writable.insert(m.pubkey);
+                }
+            }
+        }
         let mut work: BTreeMap<Pubkey, Account> = BTreeMap::new();
         let mut writable_touched: BTreeSet<Pubkey> = BTreeSet::new();
         let mut result: Result<(), TxError> = Ok(());
@@ -881,16 +901,17 @@ impl Svm {
                         accts.len() - 1
                     }
                 };
-                accts[pos].is_signer |= m.is_signer;
-                accts[pos].is_writable |= m.is_writable;
+                accts[pos].is_signer |= m.is_signer || signer_set.contains(&m.pubkey);
+                accts[pos].is_writable |= m.is_writable || (tx_writable.contains(&m.pubkey) && !self.programs.contains_key(&m.pubkey));
                 metas.push(pos);
             }
             with_ctx(|c| c.return_data = None);
             let r = invoke_frame(&ix.program_id, &mut accts, &metas, &ix.data);
             let poisoned = with_ctx(|c| c.poisoned.take()).flatten();
             let r = match (r, poisoned) {
-                (Err(e), _) => Err(e),
-                (Ok(()), Some(p)) => Err(p),
+                // The first nested failure is the root cause (the real runtime aborts right there).
+                (_, Some(p)) => Err(p),
+                (Err(e), None) => Err(e),
                 (Ok(()), None) => Ok(()),
             };
             if let Err(e) = r {
